@@ -234,7 +234,78 @@ Lemma for_from_mask0 {R : Type} (tail : str) (raise : R)
   | Some ps => k (ps, Z.of_nat (length mask))
   end.
 Proof. intros Hb mask j k. exact (for_from_mask tail raise body Hb mask j [] 0 k). Qed.
+
+(* the same loop written `for pos, c in enumerate(mask)`: the position is the loop's own
+   counter and only new_end is carried *)
+Lemma for_from_mask_enum {R : Type} (tail : str) (raise : R)
+      (body : nat -> pstr -> list pstr -> ctl R (list pstr)) :
+  (forall j m ne, body j [m] ne =
+     match nth_error tail j with
+     | None => Return raise
+     | Some c => Continue (ne ++ [if N.eqb m chL then [c] else upper_c c])
+     end) ->
+  forall mask j ne k,
+  for_from j (chars mask) body ne k =
+  match mask_pieces mask (skipn j tail) with
+  | None => raise
+  | Some ps => k (ne ++ ps)
+  end.
+Proof.
+  intros Hb. induction mask as [|m mr IH]; intros j ne k.
+  - cbn. now rewrite app_nil_r.
+  - cbn [chars map for_from mask_pieces]. rewrite Hb, (skipn_nth_error tail j).
+    destruct (nth_error tail j) as [c|]; [|reflexivity].
+    fold (chars mr). rewrite IH. destruct (mask_pieces mr (skipn (S j) tail)) as [ps|]; [|reflexivity].
+    rewrite <- app_assoc. reflexivity.
+Qed.
+
+Lemma for_from_mask_enum0 {R : Type} (tail : str) (raise : R)
+      (body : nat -> pstr -> list pstr -> ctl R (list pstr)) :
+  (forall j m ne, body j [m] ne =
+     match nth_error tail j with
+     | None => Return raise
+     | Some c => Continue (ne ++ [if N.eqb m chL then [c] else upper_c c])
+     end) ->
+  forall mask k,
+  for_from 0 (chars mask) body [] k =
+  match mask_pieces mask tail with
+  | None => raise
+  | Some ps => k ps
+  end.
+Proof. intros Hb mask k. exact (for_from_mask_enum tail raise body Hb mask 0 [] k). Qed.
 End MaskLoop.
+
+(* one step of the mask loop in the generated text is the model's step, whichever way the
+   test on the mask character is written (== 'L' / != 'L' with the branches swapped) *)
+Ltac mask_body :=
+  intros; cbv beta iota zeta; rewrite str_eqb_char, str_index_nat; unfold chL;
+  match goal with |- context [nth_error ?t ?i] => destruct (nth_error t i) end;
+  match goal with |- context [N.eqb ?c 76] => destruct (N.eqb c 76) end;
+  cbn [negb bindx]; unfold append, str_upper; cbn [flat_map]; rewrite ?app_nil_r;
+  first [reflexivity | do 2 f_equal; lia].
+
+(* ---- the loop-carried state of a generated loop ----
+   The translator carries the variables a loop body assigns as a tuple, in the order of
+   their first assignment in the body: which variables there are, and in which order, depends
+   on how the source is written.  The proofs only need to know where the printed lines, the
+   count and the limit sit in that tuple; any other component is a variable the model has no
+   counterpart for (the manual `index` counter of the mask loop).  [apply_gloop junk l] reads
+   this off the goal: it abstracts the initial state of the loop over the initial values
+   [] / 0 / zlim l of the three and over [junk] (the value an extra variable has at loop
+   entry; [no_junk] if there is none), and applies for_from_gloop with the relation "the
+   state is that tuple, for some value of the extra variable". *)
+Definition no_junk : Z := 0%Z.
+
+Ltac apply_gloop junk l :=
+  lazymatch goal with
+  | |- for_from _ _ _ ?s0 _ = _ =>
+      let t := eval pattern junk, (@nil pstr), 0%Z, (zlim l) in s0 in
+      lazymatch t with
+      | ?mk _ _ _ _ =>
+          apply for_from_gloop with
+            (rel := fun st acc num l' => exists j : Z, st = mk j acc (Z.of_nat num) (zlim l'))
+      end
+  end.
 
 (* rewrite with an equation about [zlim l] where the goal has the Python value *)
 Ltac rewrite_lim H :=
@@ -254,8 +325,8 @@ Ltac same_step :=
   first [ reflexivity
         | exfalso; lia
         | solve [repeat f_equal; lia]
-        | solve [eexists; split; [reflexivity|]; repeat f_equal; lia]
-        | solve [eexists; split; [reflexivity|]; eexists; repeat f_equal; lia] ].
+        | solve [eexists; split; [reflexivity|]; exists no_junk; cbv beta; repeat f_equal; lia]
+        | solve [eexists; split; [reflexivity|]; eexists; cbv beta; repeat f_equal; lia] ].
 
 (* ------------------------------------------------------------------ *)
 (* generated = model                                                   *)
@@ -277,18 +348,17 @@ Theorem omen_generate_guesses_eq (gs : list str) (l : lim) :
   Ok (lim_take l gs, Z.of_nat (length (lim_take l gs))).
 Proof.
   unfold py_omen_generate_guesses, for_each. cbv zeta.
-  rewrite for_from_gloop with
-    (rel := fun st acc num l => st = (acc, Z.of_nat num, zlim l))
-    (f := fun g _ => Some ([g], 1)) (l := l) (acc := []) (num := 0).
+  transitivity (lift (gloop (fun g _ => Some ([g], 1)) gs l [] 0)).
+  - apply_gloop no_junk l.
+    + intros x _ i st acc num l0 [j ->]. cbv beta iota.
+      unfold append. destruct l0 as [[|n]|];
+        cbn [zlim option_map if_truthy exhausted lim_sub active]; split_tests; same_step.
+    + intros st acc num l0 [j ->]. reflexivity.
+    + exists no_junk. reflexivity.
   - rewrite (gloop_behaves _ (fun g => [g])).
     + cbn [app Nat.add]. replace (flat_map (fun g => [g]) gs) with gs; [reflexivity|].
       induction gs as [|g gs IH]; [reflexivity|]. cbn. now rewrite <- IH.
     + apply Forall_forall. intros g _ l'. destruct l' as [[|n]|]; cbn [lim_take firstn]; rewrite ?firstn_nil; reflexivity.
-  - intros x _ i st acc num l0 ->. cbv beta iota.
-    unfold append. destruct l0 as [[|n]|];
-      cbn [zlim option_map if_truthy exhausted lim_sub active]; split_tests; same_step.
-  - intros st acc num l0 ->. reflexivity.
-  - reflexivity.
 Qed.
 
 (* ---- _recursive_guesses ---- *)
@@ -322,15 +392,14 @@ Proof.
       rewrite seq_index_cons0. cbn [bindx].
       rewrite slice_to_neg_len, slice_from_neg_len, len_cons_eq_1.
       unfold for_each.
-      apply for_from_gloop with
-        (rel := fun st acc num l => exists j : Z, st = (acc, j, Z.of_nat num, zlim l)).
+      apply_gloop idx l.
       - intros m _ i st acc num l0 [j ->]. cbv beta iota.
-        rewrite (for_from_mask0 upper_c (py_tail cur (length m0)) (Return (Exc LookupError))).
-        2:{ intros j' c ne i'. cbv beta iota. rewrite str_eqb_char, str_index_nat.
-            unfold chL. destruct (nth_error (py_tail cur (length m0)) i') as [d|];
-              destruct (N.eqb c 76); cbn [bindx]; unfold append, str_upper; cbn [flat_map];
-              rewrite ?app_nil_r; try reflexivity;
-              (do 2 f_equal; lia). }
+        (* the mask loop: manual counter, or enumerate *)
+        first [ rewrite (for_from_mask0 upper_c (py_tail cur (length m0)) (Return (Exc LookupError)))
+                  by mask_body
+              | unfold for_enum;
+                rewrite (for_from_mask_enum0 upper_c (py_tail cur (length m0)) (Return (Exc LookupError)))
+                  by mask_body ].
         rewrite mask_apply_pieces.
         destruct (mask_pieces upper_c m (py_tail cur (length m0))) as [ps|]; cbn [option_map];
           [|reflexivity].
@@ -353,9 +422,8 @@ Proof.
       - exists idx. reflexivity. }
     (* plain replacement *)
     rewrite len_cons_eq_1. unfold for_each.
-    apply for_from_gloop with
-      (rel := fun st acc num l => st = (acc, Z.of_nat num, zlim l)).
-    { intros it _ i st acc num l0 ->. cbv beta iota.
+    apply_gloop no_junk l.
+    { intros it _ i st acc num l0 [j ->]. cbv beta iota.
       destruct ptr as [|p ptr'].
       + inversion Hrest; subst rest. cbn [cont]. unfold append.
         destruct l0 as [[|n]|];
@@ -371,8 +439,8 @@ Proof.
         destruct l0 as [[|n]|];
           cbn [zlim option_map if_truthy exhausted lim_sub active]; split_tests; same_step.
     }
-    { intros st acc num l0 ->. reflexivity. }
-    reflexivity.
+    { intros st acc num l0 [j ->]. reflexivity. }
+    exists no_junk. reflexivity.
 Qed.
 
 (* ---- create_guesses, non-honeyword path ---- *)
@@ -549,6 +617,7 @@ Ltac walk prim :=
   | |- ?Q (if_truthy ?l _ _) => destruct l as [?|]; cbn [if_truthy]; walk prim
   | |- ?Q (if ?c then _ else _) => destruct c; walk prim
   | |- ?Q (for_each _ _ _ _) => unfold for_each; walk prim
+  | |- ?Q (for_enum _ _ _ _) => unfold for_enum; walk prim
   | |- ?Q (for_from _ _ _ _ _) =>
       apply (for_from_inv Q); [intros ? ? ?; walk prim | intros ?; walk prim]
   | |- ?Q (match ?x with pair _ _ => _ end) => destruct x; walk prim
